@@ -53,6 +53,28 @@ struct IsArithmetic<First, Rest...>
     : std::integral_constant<bool, IsArithmetic<First>::value &&
                                        IsArithmetic<Rest...>::value> {};
 
+// Checks an integral range that was filled with raw bytes from an encoding.
+// bool is the only integral type with invalid object representations: a byte
+// other than 0 or 1 is not a bool and must not be handed to the user. Returns
+// false if such a byte was found; the offending elements are reset to false so
+// that the destination stays valid to inspect after the failed read.
+template <typename T>
+inline bool ValidateIntegralRange(T* /*begin*/, T* /*end*/) {
+  return true;
+}
+inline bool ValidateIntegralRange(bool* begin, bool* end) {
+  unsigned char* first = reinterpret_cast<unsigned char*>(begin);
+  unsigned char* last = reinterpret_cast<unsigned char*>(end);
+  bool valid = true;
+  for (unsigned char* byte = first; byte != last; ++byte) {
+    if (*byte > 1) {
+      *byte = 0;
+      valid = false;
+    }
+  }
+  return valid;
+}
+
 // Enable if every entry of Types is an integral type.
 template <typename... Types>
 using EnableIfIntegral =
